@@ -264,7 +264,7 @@ func TestVerif_C08(t *testing.T) {
 	defer srv.Stop()
 	admin := srv.Session(t, "admin", "")
 	defer admin.Close()
-	vh.Check(t, "sqlgc", 60, 40, func(rt *rapid.T) {
+	vh.Check(t, "sqlgc", 45, 40, func(rt *rapid.T) {
 		c08Run(rt, srv, admin, dir, rec)
 	})
 }
@@ -748,8 +748,18 @@ func c08Run(rt *rapid.T, srv *vsql.Server, admin *vsql.Session, scratch string, 
 	if goneBefore && !c.hasChunk(goneHead) {
 		classes = append(classes, "deleted_branch_commit_gone")
 	}
-	if nChunks > 150 {
-		classes = append(classes, "closure>150chunks")
+	switch {
+	case nChunks >= 100:
+		classes = append(classes, "closure>=100chunks")
+	case nChunks >= 60:
+		classes = append(classes, "closure>=60chunks")
+	default:
+		classes = append(classes, "closure<60chunks")
+	}
+	if m, _ := filepath.Glob(filepath.Join(dotDolt, "noms", "*.darc")); len(m) > 0 {
+		classes = append(classes, "archive_files_present")
+	} else if m, _ := filepath.Glob(filepath.Join(dotDolt, "noms", "oldgen", "*.darc")); len(m) > 0 {
+		classes = append(classes, "archive_files_present")
 	}
 	rec.Case(desc, rich >= 3 && collected, classes...)
 }
